@@ -185,12 +185,16 @@ where
     ) -> Poll<Result<Option<C::BidiStream>, ConnectionError>> {
         let _ = self.poll_control(cx)?;
         let _ = self.poll_requests_completion(cx);
+        // A stream was rejected during this poll: once no stream is waiting any more and all
+        // requests are finished, the connection is done.
+        let mut rejected = false;
         loop {
             let conn = self.inner.poll_accept_bi(cx)?;
             return match conn {
                 Poll::Pending => {
                     let done = if conn.is_pending() {
-                        self.recv_closing.is_some() && self.poll_requests_completion(cx).is_ready()
+                        (rejected || self.recv_closing.is_some())
+                            && self.poll_requests_completion(cx).is_ready()
                     } else {
                         self.poll_requests_completion(cx).is_ready()
                     };
@@ -211,9 +215,9 @@ where
                         if s.send_id() >= max_id {
                             s.stop_sending(Code::H3_REQUEST_REJECTED.value());
                             s.reset(Code::H3_REQUEST_REJECTED.value());
-                            if self.poll_requests_completion(cx).is_ready() {
-                                break Poll::Ready(Ok(None));
-                            }
+                            // Acceptable streams may be waiting behind this one: look at
+                            // them before deciding that there is nothing left to serve.
+                            rejected = true;
                             continue;
                         }
                     }
